@@ -254,14 +254,14 @@ pub fn run_c19(tier: Tier, seed: u64) -> i32 {
 // C20
 
 fn c20_tables(tier: Tier) -> usize {
-    tier.pick(10, 40)
+    tier.pick(6, 40)
 }
 
 fn c20_write_tables(dir: &Path, tier: Tier, seed: u64, round: usize) -> Vec<(String, Table, usize)> {
     let mut out = Vec::new();
     for i in 0..c20_tables(tier) {
         let mut rng = Rng::new(seed.wrapping_mul(31).wrapping_add((round * 1000 + i) as u64) ^ 0xC20);
-        let rows = *rng.pick(&[5usize, 60, 400, 3000, 20000]);
+        let rows = if tier == Tier::Quick { *rng.pick(&[5usize, 60, 400, 3000]) } else { *rng.pick(&[5usize, 60, 400, 3000, 20000]) };
         let mut t = content(&mut rng, rows, i as u64);
         if i % 2 == 1 {
             // not dictionary-eligible: (nearly) unique strings
@@ -371,7 +371,7 @@ pub fn run_c20(tier: Tier, seed: u64) -> i32 {
     );
     let scratch = crate::data::Scratch::new("c20");
     let rounds = tier.pick(3usize, 24);
-    let exe = std::env::current_exe().expect("exe");
+    let exe = crate::eng::self_exe();
     let mut counters: BTreeMap<String, u64> = BTreeMap::new();
     let mut polls = 0u64;
     let mut complete_seen = 0u64;
